@@ -136,6 +136,7 @@ class World:
         self.I0 = mk('I0')
         self.I1 = mk('I1', self.I0)
         self.X = mk('X')
+        self.X2 = mk('X2')      # nobody depends on it yet
         self.P = mk('P')
         self.PN = mk('PN', self.P)     # nothing is registered for it at first
         base_lookup = AdapterLookup if flavour == 'adapter' else VerifyingAdapterLookup
@@ -370,6 +371,11 @@ class World:
             return reg.lookup(req, P, 'e')
         if entry == 'lookup-b':
             return reg.lookup(req, P, 'b')
+        if entry == 'lookup-x2':
+            return reg.lookup([self.X2], P, '')
+        if entry == 'base-lookup-x2':
+            # another registry's lookup object, the same specification
+            return self.base.lookup([self.X2], P, 'b')
         if entry == 'lookup1':
             return reg.lookup1(I1, P, '')
         if entry == 'lookupAll':
@@ -830,6 +836,7 @@ def follow_up(w, mutator):
     """A later change of the looked-up specification, made after all threads
     have ended: whatever the lookup object cached has to go then."""
     w.I1.__bases__ = (w.I0, w.X) if mutator == 'rebase-interface' else (w.X,)
+    w.X2.__bases__ = (w.I0,)
 
 
 def make_harness(flavour, mutator, entries):
@@ -872,7 +879,7 @@ def make_check(flavour, mutator, entries):
         if mutator:
             MUTATORS[mutator](ta)
         later = {}
-        for e in ENTRIES:
+        for e in ENTRIES + [x for x in entries if x not in ENTRIES]:
             t = World_after(flavour, mutator)
             follow_up(t, mutator)
             later[e] = norm(t.call(e))
@@ -934,7 +941,7 @@ def make_check(flavour, mutator, entries):
         # ... and the lookup object still hears about the specifications it
         # looked up: a later change of one of them reaches every entry point
         follow_up(w, mutator)
-        for e in ENTRIES:
+        for e in ENTRIES + [x for x in entries if x not in ENTRIES]:
             a = norm(w.call(e))
             if a != later[e]:
                 return 'stale', ('stale-answer-survives-a-later-change-of-the-specification:' + e, a, later[e])
@@ -1177,6 +1184,9 @@ def run(ctx):
                     else:
                         add(flavour + '+watching', mut, [e], 2, True)
             add(flavour + '+watching', None, ['lookup', 'lookupAll'], 1 if quick else 2, not quick)
+            # the lookup objects of two registries start to watch one
+            # specification that nobody depended on before
+            add(flavour, None, ['lookup-x2', 'base-lookup-x2'], 1 if quick else 2, not quick)
             if flavour == 'verifying':
                 # the lookup recomputes the resolution order of its registry
                 # (scheduling points inside ro.py as well) while a registry
